@@ -179,6 +179,12 @@ def gen_case(rnd):
     if targets and rnd.random() < 0.6:
         # includes the degenerate radius 0 (nothing is closer than 0; every positive IoU beats 0)
         radii = [rnd.choice([0.0, 0.05, 0.3, 0.6] if mode.startswith("IoU") else [0.0, 1.0, 3.0, 8.0]) for _ in targets]
+    if rnd.random() < 0.15:
+        # a wide scene (objects kilometres apart, radii absent or wider than the scene): what is paired first is decided by the order of the scores and the
+        # label stage alone, whatever the magnitude of the scores
+        for d in est + gt:
+            d["x"], d["y"] = d["x"] * 450.0, d["y"] * 450.0
+        radii = [5000.0 for _ in targets] if (targets and not mode.startswith("IoU") and rnd.random() < 0.5) else None
     return dict(task="fp_validation" if fpv else rnd.choice(["detection", "tracking"]), est=est, gt=gt, targets=targets,
                 policy=rnd.choice(["DEFAULT", "ALLOW_UNKNOWN", "ALLOW_ANY"]), mode=mode, radii=radii)
 
